@@ -395,6 +395,14 @@ def mon_graph_filter(g, nodes_arg, flag, onp, label, names_in_graph=None):
     dangling = [k for k in F.edges if k[0] not in F.vertices or k[1] not in F.vertices]
     if dangling:
         fails.append(("filter_dangling", f"{label}: filtered graph has edges {dangling} to vertices that are not part of it"))
+    # idempotence (Props/C14 gfilter_idem): filtering the filtered graph again with the same selection changes nothing
+    if not fails:
+        try:
+            F2 = F.filter(nodes_arg, filter_edges=flag)
+            if list(F2.vertices) != list(F.vertices) or list(F2.edges) != list(F.edges) or not _same_graph(onp, F2, F):
+                fails.append(("filter_idem", f"{label}: filtering the filtered graph again changes it: vertices {list(F2.vertices)} vs {list(F.vertices)}, edges {sorted(F2.edges)} vs {sorted(F.edges)}"))
+        except Exception as ex:
+            fails.append(("filter_exception", f"{label}: Graph.filter on a filtered graph raised {type(ex).__name__}: {str(ex)[:200]}"))
     return fails, F
 
 
